@@ -1168,6 +1168,24 @@ fn cli_case(sink: &mut Sink, args: &Args, cache: &mut std::collections::HashMap<
     if verbose {
         println!("one process for the file:\n{}\nfresh process per line:\n{}", whole.as_ref().map(|o| String::from_utf8_lossy(o).to_string()).unwrap_or_else(|e| e.clone()), String::from_utf8_lossy(&expected));
     }
+    // surface-only output without sentence splitting: the same run through the fold of Model/CliLoop.v (reused list as state),
+    // with the analysis of a line taken from its fresh process
+    if wakati && split == "no" {
+        if let Ok(o) = &whole {
+            let surfaces = |out: &Vec<u8>| -> String {
+                let t = String::from_utf8_lossy(out).to_string();
+                let t = t.strip_suffix('\n').unwrap_or(&t).to_string();
+                if t.is_empty() {
+                    clist(Vec::<String>::new())
+                } else {
+                    clist(t.split(' ').map(|w| cbytes(w.as_bytes())))
+                }
+            };
+            let term = format!("check_cli_loop {} {} {}", cbytes(file.as_bytes()), clist(per_line.iter().map(|o| surfaces(o))), cbytes(o));
+            sink.case(term, json!({"kind": "cli-lines", "file": file, "mode": mode, "split": split, "wakati": wakati, "all": all, "side": "fold"}), blank_after_text);
+            sink.tag("cli:fold_model_case");
+        }
+    }
     match whole {
         Err(e) => sink.fail(id, &format!("sudachi -m {} --split-sentences {} on the file {:?}: {}", mode, split, file, e), ""),
         Ok(o) => {
@@ -1244,7 +1262,7 @@ fn cli_stage(sink: &mut Sink, args: &Args, rng: &mut Rng, replay: Option<Value>)
 }
 
 pub fn run(args: &Args) {
-    let mut sink = Sink::new("C10", &args.out, &["Model.TokState", "Proofs.TokStateConcrete"], args.seed, &args.tier);
+    let mut sink = Sink::new("C10", &args.out, &["Model.TokState", "Proofs.TokStateConcrete", "Model.CliLoop"], args.seed, &args.tier);
     sink.shard_size = 60;
     sink.rule("per generated dictionary (as in C09, with DefaultInputTextPlugin + length-changing rewrite.def and a path rewrite plugin that fails on '!'): a pool of texts (empty, short, long, oversized for start_build, oversized after rewriting, late-failing) and random sequences of 1..9 operations {set_mode, set_subset (all / random / narrow requests), analyse, new list, collect into a possibly reused list, split_into, lookup, another tokenizer collecting into the shared list} -- half of them call-structured: [request change] analyse collect, mostly into the same list -- on one StatefulTokenizer, then a probe (analyse + collect into a possibly reused list) compared in outcome, boundaries, word ids, every requested field and the on-demand split (split_into A/B) of every morpheme -- into a fresh list and into every other result list of the run with its own history (as left, and after clear()) -- with (1) a fresh tokenizer carrying the same accumulated field set and (2) a fresh tokenizer of the same mode given the user's field request (default or last set_subset); plus a slice run on the INSTANTIATED machine (Proofs/TokStateConcrete.v: stages = Tokenizer.tokenize_model's, word infos under the loaded subset): small dictionaries shipped as tables, texts of at most 12 characters, the whole history replayed in Coq and the probe compared in byte ranges and word ids; plus the command-line tool (one tokenizer and one result list over the lines of a file): multi-line files (blank lines anywhere, long and short lines, CRLF, no final newline) through `sudachi --split-sentences no / yes`, modes A/B/C, default / -w / -a output, must print the concatenation of what a fresh process prints for every single line; plus sudachipy sessions (module built from the working tree): 1..5 tokenize calls with per-call mode override / out= reuse / rejected texts, Morpheme.split (modes A/B/C, out= reuse, add_single) and Dictionary.lookup(out=) in between, then a probe call (tokenize, or Morpheme.split of the last result in any mode into a possibly non-empty reused list) compared in boundaries, word ids, every requested field and tokenizer.mode with a fresh Tokenizer of the same mode and fields; non-trivial = the history holds at least one analysis and the probe yields tokens");
     let res = prepare_resources(&args.work);
